@@ -281,6 +281,8 @@ func execDistr(x *Exec, toks []string) string {
 		return distrBlock(x, f)
 	case "d.update":
 		return distrUpdate(x, f, toks)
+	case "d.up.migrate3":
+		return execDistrMigrate(x, f)
 	case "d.params":
 		return "ok p=" + distrParamsStr(f.keeper.GetParams(x.ctx))
 	case "d.end":
